@@ -26,10 +26,11 @@ static const char* opName(int c) { return (c > 0 && c < O_N) ? codeName[c] : "?"
 // ------------------------------------------------------------------ value model (host memory)
 struct Val {
   enum T { NUL, INT, STR, LIST, ARR, MAP, XTEXT, XELEM, OBJ } t = NUL;
-  long i = 0; std::string s;
+  long i = 0; std::string s; int vt = 0;   /* INT in a Variant: the scalar type it was assigned as (0 = int64) */
   std::vector<std::pair<std::string, std::string>> attrs;   // XELEM
   std::vector<std::pair<std::string, Val>> kids;            // LIST/ARR (key unused), MAP (key), XELEM content (key unused)
 };
+static std::string scalarText(const struct Val& v);
 static std::string show(const Val& v) {
   switch (v.t) {
   case Val::NUL: return "null"; case Val::INT: return "i" + std::to_string(v.i); case Val::STR: return "\"" + v.s + "\""; case Val::XTEXT: return "t\"" + v.s + "\""; case Val::OBJ: return "obj" + std::to_string(v.i);
@@ -63,11 +64,12 @@ static inline P& PT(char* p) { return *(P*)p; }
 static String mkString(const std::string& s) { return String(s.c_str(), s.size()); }
 static std::string genStr(uint64_t v) { static const char* w[] = {"", "a", "Bc", "hello", "World42", "xyzxyzxyzxyzxyzxyz", "MiXeD Case 0123456789 abcdefghijklmnopqrstuvwxyz"}; std::string s = w[v % 7]; if ((v / 7) % 3 == 0) s += std::to_string(v % 1000); if ((v / 21) % 3 == 0) s += (v / 84) % 2 ? " \t" : " "; if ((v / 168) % 5 == 0) s = " " + s; return s; }
 
+static std::string scalarText(const Val& v) { if (v.vt == 1) return v.i ? "true" : "false"; if (v.vt == 2) { char b[64]; snprintf(b, sizeof b, "%f", (double)v.i); return b; } return std::to_string(v.i); }   /* what Variant::toString() makes of a scalar */
 // build a real value in *p (raw memory) from a model value
 static void construct(char* p, const Val& v);
 static Variant mkVariant(const Val& v) {
   switch (v.t) {
-  case Val::INT: return Variant((int64)v.i);
+  case Val::INT: switch (v.vt) { case 1: return Variant((bool)(v.i != 0)); case 2: return Variant((double)v.i); case 3: return Variant((int)v.i); case 4: return Variant((uint)v.i); case 5: return Variant((uint64)v.i); default: return Variant((int64)v.i); }
   case Val::STR: return Variant(mkString(v.s));
   case Val::LIST: { List<Variant> l; for (auto& k : v.kids) l.append(mkVariant(k.second)); return Variant(l); }
   case Val::ARR: { Array<Variant> a; for (auto& k : v.kids) a.append(mkVariant(k.second)); return Variant(a); }
@@ -103,7 +105,7 @@ static bool eqStr(const String& s, const std::string& m) { return s.length() == 
 static bool eqVariant(const Variant& v, const Val& m) {
   switch (m.t) {
   case Val::NUL: return v.isNull();
-  case Val::INT: return v.getType() == Variant::int64Type && v.toInt64() == m.i;
+  case Val::INT: { static const Variant::Type ty[] = {Variant::int64Type, Variant::boolType, Variant::doubleType, Variant::intType, Variant::uintType, Variant::uint64Type}; return v.getType() == ty[m.vt % 6] && v.toInt64() == m.i; }
   case Val::STR: return v.getType() == Variant::stringType && eqStr(v.toString(), m.s);
   case Val::LIST: { if (v.getType() != Variant::listType) return false; const List<Variant>& l = v.toList(); if (l.size() != m.kids.size()) return false; size_t n = 0; for (List<Variant>::Iterator i = l.begin(), e = l.end(); i != e; ++i, ++n) if (!eqVariant(*i, m.kids[n].second)) return false; return true; }
   case Val::ARR: { if (v.getType() != Variant::arrayType) return false; const Array<Variant>& a = v.toArray(); if (a.size() != m.kids.size()) return false; for (size_t n = 0; n < m.kids.size(); ++n) if (!eqVariant(a[n], m.kids[n].second)) return false; return true; }
@@ -181,15 +183,18 @@ static void mutate(int w, int j, uint64_t kind, uint64_t param) {
     Variant& v = V(p);
     Val child; child.t = (param % 2) ? Val::STR : Val::INT; child.s = gs; child.i = (long)(param % 1000);
     static const char* const collide[4] = {"kamak", "kbmbk", "kcmck", "kdmdk"};   /* same length, first, middle and last character: one hash bucket chain */
-    switch (kind % 14) {   // (assigning a *container* taken from inside the own payload, v = v.toMap()[k].toMap(), is caller misuse as for any container and is not generated)
+    switch (kind % 16) {   // (assigning a *container* taken from inside the own payload, v = v.toMap()[k].toMap(), is caller misuse as for any container and is not generated)
     case 7: { // assign from a handle that lives inside the own payload (e.g. walking down a tree): v = v.toList().front()
       if ((m.t == Val::LIST || m.t == Val::ARR || m.t == Val::MAP) && !m.kids.empty()) { const Variant& cv = v; if (m.t == Val::LIST) v = cv.toList().front(); else if (m.t == Val::ARR) v = cv.toArray()[0]; else v = *cv.toMap().begin(); Val c = m.kids[0].second; m = c; probe("assign_from_nested_handle"); }
       break; }
     case 0: { std::string key; { Host h; key = "k" + std::to_string(++C.uniq); } v.toMap().append(mkString(key), mkVariant(child)); if (m.t != Val::MAP) { m = Val(); m.t = Val::MAP; } m.kids.push_back({key, child}); break; }
     case 1: v.toList().append(mkVariant(child)); if (m.t != Val::LIST) { m = Val(); m.t = Val::LIST; } m.kids.push_back({"", child}); break;
     case 2: v.toArray().append(mkVariant(child)); if (m.t != Val::ARR) { m = Val(); m.t = Val::ARR; } m.kids.push_back({"", child}); break;
-    case 3: { String& s = v.toString(); std::string base; if (m.t == Val::STR) base = m.s; else if (m.t == Val::INT) base = std::to_string(m.i); s.append(mkString(gs)); m = Val(); m.t = Val::STR; m.s = base + gs; break; }
-    case 4: v = (int64)(param % 1000); m = Val(); m.t = Val::INT; m.i = (long)(param % 1000); break;
+    case 3: { String& s = v.toString(); std::string base; if (m.t == Val::STR) base = m.s; else if (m.t == Val::INT) base = scalarText(m); s.append(mkString(gs)); m = Val(); m.t = Val::STR; m.s = base + gs; break; }
+    case 4: { /* every scalar assignment overload (each switches the handle to its in-object value) */
+      long n = (long)(param % 1000); int vt = (int)((param / 1000 + param) % 6); if (vt == 1) n = n & 1;
+      switch (vt) { case 1: v = (bool)(n != 0); break; case 2: v = (double)n; break; case 3: v = (int)n; break; case 4: v = (uint)n; break; case 5: v = (uint64)n; break; default: v = (int64)n; break; }
+      m = Val(); m.t = Val::INT; m.i = n; m.vt = vt; break; }
     case 5: v = mkString(gs); m = Val(); m.t = Val::STR; m.s = gs; break;
     case 6: v.clear(); m = Val(); break;
     case 8: { /* insert or overwrite one of four keys that share a bucket */
@@ -198,6 +203,13 @@ static void mutate(int w, int j, uint64_t kind, uint64_t param) {
       break; }
     case 9: { /* remove one key of a map payload */
       if (m.t == Val::MAP && !m.kids.empty()) { size_t at = (size_t)(param % m.kids.size()); std::string key = m.kids[at].first; v.toMap().remove(mkString(key)); m.kids.erase(m.kids.begin() + at); probe("map_key_removed"); }
+      break; }
+    case 14: { /* remove an element of an array payload by index; the index may be size() (documented no-op) */
+      if (m.t == Val::ARR) { size_t n = m.kids.size(); size_t at = (size_t)(param % (n + 1)); v.toArray().remove(at); if (at < n) m.kids.erase(m.kids.begin() + at); else probe("array_remove_at_size"); }
+      break; }
+    case 15: { /* remove the first or last element of a list / array payload */
+      if (m.t == Val::LIST && !m.kids.empty()) { if (param % 2) { v.toList().removeFront(); m.kids.erase(m.kids.begin()); } else { v.toList().removeBack(); m.kids.pop_back(); } }
+      else if (m.t == Val::ARR && !m.kids.empty()) { if (param % 2) { v.toArray().removeFront(); m.kids.erase(m.kids.begin()); } else { v.toArray().removeBack(); m.kids.pop_back(); } }
       break; }
     case 11: { /* take the contents of a list payload out with swap, drop them, go on using the list (its spare cells must have moved along with its blocks) */
       { List<Variant> tmp; v.toList().swap(tmp); if (m.t == Val::LIST && !m.kids.empty()) probe("payload_container_swapped_out"); }
@@ -211,7 +223,7 @@ static void mutate(int w, int j, uint64_t kind, uint64_t param) {
         Variant* first; if (m.t == Val::LIST) first = &v.toList().front(); else if (m.t == Val::ARR) first = &v.toArray()[0]; else { HashMap<String, Variant>::Iterator it = v.toMap().begin(); first = &*it; }
         String& inner = first->toString();
         v = inner;
-        Val c = m.kids[0].second; std::string str = c.t == Val::STR ? c.s : c.t == Val::INT ? std::to_string(c.i) : std::string(); m = Val(); m.t = Val::STR; m.s = str; probe("assign_from_nested_string");
+        Val c = m.kids[0].second; std::string str = c.t == Val::STR ? c.s : c.t == Val::INT ? scalarText(c) : std::string(); m = Val(); m.t = Val::STR; m.s = str; probe("assign_from_nested_string");
       }
       break; }
     }
@@ -336,7 +348,7 @@ static void generate(RunSpec& s, int tier) {
     for (int i = 0; i < n; ++i) {
       Op o; o.task = w; o.a[0] = (int64_t)r(k); o.a[1] = (int64_t)r(k); o.a[2] = (int64_t)r(1000); o.a[3] = (int64_t)r(1000);
       uint64_t c = r(100);
-      if (mapFocus && r(10) < 7) { c = 50; o.a[1] = (int64_t)r(2); bool ins = r(5) < 3; o.a[2] = fam == F_VARIANT ? (int64_t)(14 * r(50) + (ins ? 8 : 9)) : (int64_t)(10 * r(50) + (ins ? 5 : 6)); }
+      if (mapFocus && r(10) < 7) { c = 50; o.a[1] = (int64_t)r(2); bool ins = r(5) < 3; o.a[2] = fam == F_VARIANT ? (int64_t)(16 * r(50) + (ins ? 8 : 9)) : (int64_t)(10 * r(50) + (ins ? 5 : 6)); }
       o.code = c < 18 ? O_COPY : c < 34 ? O_ASSIGN : c < 42 ? O_RECREATE : c < 66 ? O_MUTATE : c < 74 ? O_SWAP : c < 84 ? O_SEND : c < 94 ? O_RECV : c < 97 ? O_READ : O_WORK;
       if (o.code == O_ASSIGN && r(10) == 0) o.a[1] = o.a[0];
       s.plan.push_back(o);
